@@ -42,7 +42,7 @@ def _alpha(seed):
 M_SUFFIX = [a + b for a in "0123456789ABCDEFGH" for b in "0123456789"]
 KP = [("-", None)] + [(k, p) for k in M.TODO_KINDS for p in (None, "P0", "P9")]
 IDENTS = ["none", "zid", "mzid", "long", "zid-late-year", "mzid-late-year", "zid-leap-day"]
-TAILS = ["single", "cont", "bullet", "bullet_lookalike"]
+TAILS = ["single", "cont", "bullet", "bullet_lookalike", "cont_ws"]
 
 
 # word FORMS the grammar admits in a body (the look-alike alphabet above varies the words'
@@ -86,6 +86,9 @@ def _mk_item(seed, kind, prio, ident, widx, tail):
         item.cont = [("  ", [M.W(plain[1]), M.W("o"), M.W("P5")])]
     elif tail == "bullet":
         item.cont = [("  * ", [M.W(plain[0])]), ("    - ", [M.W("x"), M.W(plain[1])])]
+    elif tail == "cont_ws":
+        # an indented line that holds only blanks, between two continuation lines
+        item.cont = [("  ", [M.W(plain[1])]), ("   ", []), ("  * ", [M.W("x"), M.W(plain[0])])]
     elif tail == "bullet_lookalike":
         item.cont = [("  * ", [M.W("240512"), M.W("x")]), ("  ", [M.W("240513#AB")])]
     return item
@@ -283,7 +286,7 @@ def _cases(ctx):
                     if _is_written_prefix(k, p, ident, words[widx[0]]):
                         continue
                     for tail in TAILS:
-                        if ctx.quick and n == 2 and tail in ("cont", "bullet"):
+                        if ctx.quick and n == 2 and tail in ("cont", "bullet", "cont_ws"):
                             continue
                         gap = 1 if (len(cases) % 5) else 2
                         cases.append(["single", k, p, ident, list(widx), tail, gap])
